@@ -53,11 +53,11 @@ type getReq struct {
 type Store struct {
 	coreiface.CoreAPI // nil: any other method panics, on purpose
 
-	mu       sync.Mutex
-	blocks   map[string][]byte
-	Writes   []WriteRec
-	Pins     []string
-	Reqs     []string // every Get request, in arrival order (cid strings)
+	mu             sync.Mutex
+	blocks         map[string][]byte
+	Writes         []WriteRec
+	Pins           []string
+	Reqs           []string // every Get request, in arrival order (cid strings)
 	ReqAfterCancel int
 
 	// fault plan
@@ -74,7 +74,7 @@ type Store struct {
 	pending []*getReq
 	reqSeq  int
 
-	OnAdd func(rec WriteRec, n ipld.Node) // monitor hook, called with the lock released
+	OnAdd   func(rec WriteRec, n ipld.Node) // monitor hook, called with the lock released
 	OnFault func(kind string)
 }
 
@@ -147,7 +147,7 @@ func (s *Store) FailNextAdd(kind string) {
 }
 
 func (s *Store) Dag() coreiface.APIDagService { return &dagSvc{s} }
-func (s *Store) Pin() coreiface.PinAPI         { return &pinSvc{s: s} }
+func (s *Store) Pin() coreiface.PinAPI        { return &pinSvc{s: s} }
 
 type pinSvc struct {
 	coreiface.PinAPI
